@@ -7,6 +7,7 @@ Degenerate cases (zero columns, zero-mean columns) are decided at small concrete
 from ..oblig import GOb
 from ..symint import atom
 from .. import specs as SP
+from .. import gtensor as G
 
 PID = "C04"
 LEVEL = "proof"
@@ -134,10 +135,22 @@ def obligations(tier):
             def setup(S, N=N):
                 n = dims(N)
                 return dict(w=S.input("w", [R]), fs=[S.input(f"U{k}", [n[k], R]) for k in range(N)])
-            def post(S, I, r):
+            def post(S, I, r, N=N, m=m):
                 w2, fs2 = r
-                return [("tensor preserved", SP.cp_to_tensor(S, w2, fs2), SP.cp_to_tensor(S, I["w"], I["fs"])),
-                        ("weights are |w|", w2, S.abs(I["w"]))]
+                out = [("tensor preserved", SP.cp_to_tensor(S, w2, fs2), SP.cp_to_tensor(S, I["w"], I["fs"])),
+                       ("weights are |w|", w2, S.abs(I["w"]))]
+                for jj in range(N):
+                    if jj == m:
+                        continue
+                    if S.name == "sym":
+                        mean_new = G.g_mean(fs2[jj], 0)
+                        mean_old = G.g_mean(I["fs"][jj], 0)
+                        sgn = G.g_sign(mean_old)
+                        out.append((f"column summaries of mode {jj} are |old summaries| (non-negative): new·sign(old) ≡ old", mean_new * sgn, mean_old))
+                    else:
+                        import numpy as np
+                        out.append((f"column summaries of mode {jj} are |old summaries| (non-negative): new·sign(old) ≡ old", np.mean(fs2[jj], 0) * np.sign(np.mean(I["fs"][jj], 0)), np.mean(I["fs"][jj], 0)))
+                return out
             add("cp_tensor:cp_flip_sign", f"N={N},mode={m}", setup, lambda I, m=m: tuple(cpt.cp_flip_sign((I["w"], list(I["fs"])), mode=m)), post,
                 dict(order=N, mode=m), "tensor preserved ∧ weights non-negative (non-zero column summaries)", side_nonzero=True)
     # ---------------------------------------------------------------------- PARAFAC2 normalise
@@ -158,6 +171,113 @@ def obligations(tier):
                 return out
             add("parafac2_tensor:parafac2_normalise", f"slices={nI},weights={wts}", setup, call, post, dict(n_slices=nI, weights=wts),
                 "every slice preserved (no zero column)", side_nonzero=True)
+    # ---------------------------------------------------------------------- cp_permute_factors (assignment solver by contract)
+    import itertools
+    from ..iterative import stubbed
+    for Rk in (2, 3):
+        for perm in itertools.permutations(range(Rk)):
+            def setup(S, Rk=Rk):
+                n = dims(3)
+                return dict(_S=S, wr=S.input("wr", [Rk]), fr=[S.input(f"V{k}", [n[k], Rk]) for k in range(3)],
+                            w=S.input("w", [Rk]), fs=[S.input(f"U{k}", [n[k], Rk]) for k in range(3)])
+            def call(I, perm=perm):
+                rec = []
+                def cc_stub(m1, m2, **kw):
+                    rec.append((list(m1), list(m2)))
+                    return 0.5, list(perm)
+                ref = cpt.CPTensor((I["wr"], list(I["fr"])))
+                tgt = cpt.CPTensor((I["w"], list(I["fs"])))
+                with stubbed(cpt, congruence_coefficient=cc_stub):
+                    out, perms = cpt.cp_permute_factors(ref, tgt)
+                return dict(out=(out.weights, list(out.factors)), perms=[list(p) for p in perms], rec=rec)
+            def post(S, I, r, perm=perm, Rk=Rk):
+                w2, fs2 = r["out"]
+                m1, m2 = r["rec"][0]
+                nref = cpt.cp_normalize((I["wr"], list(I["fr"])))
+                ntgt = cpt.cp_normalize((I["w"], list(I["fs"])))
+                out = [("tensor preserved", SP.cp_to_tensor(S, w2, fs2), SP.cp_to_tensor(S, I["w"], I["fs"])),
+                       ("returned permutation is the assignment", r["perms"][0], list(perm)),
+                       ("assignment computed for (normalised reference, normalised tensor) in this order: reference first", m1, list(nref.factors)),
+                       ("... tensor to permute second", m2, list(I["fs"])),
+                       ("weights aligned: w'[j] ≡ w[perm[j]]", w2, S.stack([S.take(I["w"], 0, p) for p in perm], 0))]
+                for k in range(3):
+                    out.append((f"mode {k}: column j of the result is column perm[j] of the input", fs2[k], S.stack([S.take(I["fs"][k], 1, p) for p in perm], 1)))
+                return out
+            add("cp_tensor:cp_permute_factors", f"rank={Rk},assignment={list(perm)}", setup, call, post, dict(rank=Rk, assignment=list(perm)),
+                "tensor preserved ∧ components aligned with the assignment (reference first)", side_nonzero=True)
+    # ---------------------------------------------------------------------- Parafac2Tensor.from_CPTensor (QR by contract: B = Q R, QᵀQ = I)
+    for nI in (1, 2, 3):
+        for wts in (True, False):
+            def setup(S, nI=nI, wts=wts):
+                J, K = atom("J"), atom("K")
+                return dict(_S=S, w=S.input("w", [R]) if wts else None, A=S.input("A", [nI, R]), B=S.input("B", [J, R]), Cc=S.input("Cm", [K, R]))
+            def call(I):
+                from .c03 import _noval
+                t = _noval(p2t, lambda: p2t.Parafac2Tensor.from_CPTensor((I["w"], (I["A"], I["B"], I["Cc"]))))
+                return (t.weights if I["w"] is not None else None, list(t.factors), list(t.projections))
+            def post(S, I, r, nI=nI):
+                w2, (A2, B2, C2), P2 = r
+                out = []
+                for i in range(nI):
+                    a_i = S.take(I["A"], 0, i)
+                    subs, args = ["jr", "r", "kr"], [I["B"], a_i, I["Cc"]]
+                    if I["w"] is not None:
+                        subs.append("r")
+                        args.append(I["w"])
+                    out.append((f"slice {i} of the PARAFAC2 form ≡ slice {i} of the CP tensor", SP.parafac2_slice(S, w2, A2, B2, C2, P2[i], i), S.einsum(",".join(subs) + "->jk", *args)))
+                out.append(("one projection per slice", len(P2), nI))
+                return out
+            add("parafac2_tensor:Parafac2Tensor.from_CPTensor", f"slices={nI},weights={wts}", setup, call, post, dict(n_slices=nI, weights=wts),
+                "every slice preserved (QR contract)", assumptions=lambda I: [atom("J") >= R])
+    # ---------------------------------------------------------------------- SVD compression / decompression of PARAFAC2 slices
+    import tensorly.preprocessing as prep
+    for K in (2, 3):
+        for pattern in (("tall",), ("short", "tall"), ("tall", "short"), ("short", "tall", "short", "tall")):
+            if K == 3 and len(pattern) > 2 and tier == "quick":
+                continue
+            def setup(S, K=K, pattern=pattern):
+                Js = [atom(f"J{i}") if kind == "tall" else K for i, kind in enumerate(pattern)]
+                return dict(_S=S, Xs=[S.input(f"X{i}", [Js[i], K]) for i in range(len(pattern))], Js=Js,
+                            w=S.input("w", [R]), A=S.input("A", [len(pattern), R]), B=S.input("B", [R, R]), Cc=S.input("Cm", [K, R]),
+                            P=[S.input(f"P{i}", [K, R]) for i in range(len(pattern))])
+            def call(I, K=K):
+                S = I["_S"]
+                def svd_stub(matrix, n_eigenvecs=None, **kw):
+                    if S.name == "sym":
+                        U = G.opaque_tensor("SVDU", [matrix.shape[0], n_eigenvecs], matrix.dtype, ortho_axis=0)
+                        Sv = G.opaque_tensor("SVDS", [n_eigenvecs])
+                        V = G.opaque_tensor("SVDV", [n_eigenvecs, matrix.shape[1]], matrix.dtype, ortho_axis=1)
+                        G.NONNEG.add(G.name_of(Sv))
+                        # all min(shape) singular values are kept (n_eigenvecs == number of columns <= rows): the SVD is exact
+                        G.register_factorisation((G.name_of(U), G.name_of(Sv), G.name_of(V)), matrix)
+                        return U, Sv, V
+                    from tensorly.tenalg.svd import svd_interface as real
+                    out = real(matrix, n_eigenvecs=n_eigenvecs, **kw)
+                    S.record("SVDU", out[0]); S.record("SVDS", out[1]); S.record("SVDV", out[2])
+                    return out
+                with stubbed(prep, svd_interface=svd_stub):
+                    scores, loadings = prep.svd_compress_tensor_slices(list(I["Xs"]))
+                from .c03 import _noval
+                pf2 = (I["w"], (I["A"], I["B"], I["Cc"]), list(I["P"]))
+                dec = _noval(p2t, lambda: prep.svd_decompress_parafac2_tensor(pf2, loadings))
+                return dict(scores=scores, loadings=loadings, dec=(dec.weights, list(dec.factors), list(dec.projections)))
+            def post(S, I, r, pattern=pattern):
+                out = []
+                w2, (A2, B2, C2), P2 = r["dec"]
+                for i, kind in enumerate(pattern):
+                    L, sc = r["loadings"][i], r["scores"][i]
+                    model_i = SP.parafac2_slice(S, I["w"], I["A"], I["B"], I["Cc"], I["P"][i], i)
+                    dec_i = SP.parafac2_slice(S, w2, A2, B2, C2, P2[i], i)
+                    if kind == "short":
+                        out.append((f"slice {i} (not taller than wide): left uncompressed", (L is None, sc), (True, I["Xs"][i])))
+                        out.append((f"slice {i}: decompressed model slice ≡ model slice", dec_i, model_i))
+                    else:
+                        out.append((f"slice {i} (tall): loading·score ≡ original slice (all singular values kept)", S.einsum("jk,kc->jc", L, sc), I["Xs"][i]))
+                        out.append((f"slice {i}: decompressed model slice ≡ loading · compressed model slice", dec_i, S.einsum("jk,kc->jc", L, model_i)))
+                return out
+            add("preprocessing:svd_compress_tensor_slices+svd_decompress_parafac2_tensor", f"columns={K},slices={'/'.join(pattern)}", setup, call, post,
+                dict(columns=K, slices=list(pattern)), "compression is lossless when all singular values are kept; decompression maps every model slice back",
+                assumptions=lambda I: [j > len(I["Xs"]) * 0 + I["Xs"][0].shape[1] for j in I["Js"] if not isinstance(j, int)])
     # ---------------------------------------------------------------------- TT / TR rank padding
     for d in range(1, maxN + 1):
         def setup(S, d=d):
